@@ -1854,6 +1854,40 @@ def fold_flag_loops(fn: ast.FunctionDef) -> ast.FunctionDef:
     return new
 
 
+def nest_loop_continues(fn: ast.FunctionDef) -> ast.FunctionDef:
+    """In every loop body, `if c: continue` followed by REST reads as `if not c: REST` (see _nest_continues)."""
+    class X(ast.NodeTransformer):
+        def _loop(self, node):
+            node = self.generic_visit(node)
+            node.body = _nest_continues(node.body)
+            return node
+        visit_For = visit_While = _loop
+
+        def visit_If(self, node):
+            node = self.generic_visit(node)
+            return node
+    new = copy.deepcopy(fn)
+    X().visit(new)
+    # nested ifs produced above may themselves hold `continue` guards one level down
+    for _ in range(3):
+        changed = False
+        for lp in ast.walk(new):
+            if isinstance(lp, (ast.For, ast.While)):
+                for iff in ast.walk(lp):
+                    if isinstance(iff, ast.If) and iff is not lp:
+                        for fld in ("body", "orelse"):
+                            b = getattr(iff, fld)
+                            nb = _nest_continues(b)
+                            if len(nb) != len(b):
+                                setattr(iff, fld, nb)
+                                changed = True
+        if not changed:
+            break
+    ast.fix_missing_locations(new)
+    number(new)
+    return new
+
+
 # ------------------------------------------------------------------------------------ attribution of private helpers
 def _all_functions(tree: ast.AST):
     def rec(node, prefix):
